@@ -107,6 +107,7 @@ pub fn judge_run(case: &SrvCase, run: &SrvRun) -> Judgement {
             role: r.clone(),
             calls: 0,
         }),
+        aliases: case.cfg.alias_map(),
     };
     j.ok.label(match fr {
         Fr::Mbap => "framing:mbap",
@@ -513,6 +514,26 @@ fn arb_frames(fr: Fr, units: Vec<u8>, hint: WinHint, unit_bias: u8, max: usize) 
         .boxed()
 }
 
+/// In one configuration of four, one or two further unit ids are served by the handler instance
+/// of a configured unit (ServerHandlerMap::add with a clone of the same Arc<Mutex<..>>)
+fn arb_aliases() -> BoxedStrategy<Vec<(u8, prop::sample::Index)>> {
+    prop_oneof![
+        3 => Just(Vec::new()),
+        1 => vec((1u8..=254, any::<prop::sample::Index>()), 1..3),
+    ]
+    .boxed()
+}
+
+fn resolve_aliases(units: &[(u8, crate::app::UnitState)], raw: &[(u8, prop::sample::Index)]) -> Vec<(u8, u8)> {
+    if units.is_empty() {
+        return Vec::new();
+    }
+    raw.iter()
+        .filter(|(a, _)| !units.iter().any(|u| u.0 == *a))
+        .map(|(a, i)| (*a, units[i.index(units.len())].0))
+        .collect()
+}
+
 /// C01 / C02 cases: no authorization, unit ids biased to configured units
 pub fn arb_srv_case() -> BoxedStrategy<SrvCase> {
     (
@@ -520,15 +541,19 @@ pub fn arb_srv_case() -> BoxedStrategy<SrvCase> {
         arb_units(4),
         arb_decode(),
         any::<u64>(),
+        arb_aliases(),
     )
-        .prop_flat_map(|(fr, units, decode, select_seed)| {
-            let ids: Vec<u8> = units.iter().map(|u| u.0).collect();
+        .prop_flat_map(|(fr, units, decode, select_seed, raw_aliases)| {
+            let aliases = resolve_aliases(&units, &raw_aliases);
+            let mut ids: Vec<u8> = units.iter().map(|u| u.0).collect();
+            ids.extend(aliases.iter().map(|a| a.0));
             arb_frames(fr, ids, WinHint::of(units.first().map(|u| &u.1)), 7, 12).prop_map(move |frames| SrvCase {
                 cfg: SrvConfig {
                     framing: fr,
                     units: units.clone(),
                     auth: None,
                     decode,
+                    aliases: aliases.clone(),
                 },
                 frames,
                 select_seed,
@@ -548,6 +573,7 @@ pub fn arb_srv_case_rtu() -> BoxedStrategy<SrvCase> {
                     units: units.clone(),
                     auth: None,
                     decode,
+                    aliases: vec![],
                 },
                 frames,
                 select_seed,
@@ -563,15 +589,19 @@ pub fn arb_multidrop_case() -> BoxedStrategy<SrvCase> {
         arb_units(4),
         arb_decode(),
         any::<u64>(),
+        arb_aliases(),
     )
-        .prop_flat_map(|(fr, units, decode, select_seed)| {
-            let ids: Vec<u8> = units.iter().map(|u| u.0).collect();
+        .prop_flat_map(|(fr, units, decode, select_seed, raw_aliases)| {
+            let aliases = resolve_aliases(&units, &raw_aliases);
+            let mut ids: Vec<u8> = units.iter().map(|u| u.0).collect();
+            ids.extend(aliases.iter().map(|a| a.0));
             arb_frames(fr, ids, WinHint::of(units.first().map(|u| &u.1)), 3, 12).prop_map(move |frames| SrvCase {
                 cfg: SrvConfig {
                     framing: fr,
                     units: units.clone(),
                     auth: None,
                     decode,
+                    aliases: aliases.clone(),
                 },
                 frames,
                 select_seed,
@@ -609,6 +639,7 @@ pub fn arb_auth_case() -> BoxedStrategy<SrvCase> {
                             units: units.clone(),
                             auth: Some((policy.clone(), role.clone())),
                             decode,
+                            aliases: vec![],
                         },
                         frames,
                         select_seed,
